@@ -291,7 +291,7 @@ def mh_step(case, tr, paths, S, ch0, r0, viol, sig, probes):
         return 1
     # selected leaves are fresh conditional-prior draws at the reference's parameters
     sel_sites = [x for x in r1.sites if tuple(x["path"]) in S]
-    un_ref, un_lanes = gfi.match_sites(sel_sites, script.base.lanes)
+    un_ref, un_lanes = gfi.match_sites(sel_sites, script.base.lanes, script=script.base)
     if un_ref and np.isfinite(r1.logp):
         viol.append(V("wrong_proposal", "mh_proposes_from_conditional_prior",
                       "a selected choice was not drawn at a site with the reference's conditional-prior parameters: "
